@@ -4,6 +4,7 @@ returned, read with the independent SQL reader of Spec/Sql.
 -/
 import PqlModel.Spec.Sql.Parse
 import PqlModel.Spec.Sql.SameMeaning
+import PqlModel.Spec.Sql.ParseLenient
 import PqlModel.Spec.Misuse
 import PqlModel.Model.Compile
 namespace Pql.CompileOracle
@@ -188,7 +189,7 @@ def structureClauses (stmts : List Stmt) (sql : Bytes) : List String × Option S
     let c1 := if raw.contains .comment then ["c05-comment-or-placeholder"] else []
     let c2 := if semis.length == 1 && toks.getLast? == some (.sym ";") then [] else ["c05-semicolon"]
     let c3 := if balanced toks [] then [] else ["c05-brackets"]
-    match parseStatement toks with
+    match parseStatementAny toks with
     | none => (c1 ++ c2 ++ c3 ++ ["c05-parse"], none)
     | some st =>
       let names := st.ctes.map (·.1)
@@ -285,6 +286,10 @@ where
     | .cons _ os => go os
 
 def readSql (sql : Bytes) : Option Statement := (lex .standard sql) >>= parseStatement
+
+/-- for judging the output of a possibly CHANGED compiler: the strict reading, else the tolerant one
+    (`Sql/ParseLenient.lean`: INNER JOIN, LEFT OUTER JOIN, SELECT DISTINCT, omitted ASC / NULLS) -/
+def readSqlAny (sql : Bytes) : Option Statement := (lex .standard sql) >>= parseStatementAny
 
 mutual
 def normSel (s : Select) : Select :=
